@@ -18,7 +18,7 @@ import (
 
 //verif:include ../dnsdata/rdb/zz_verif_model.go
 //verif:include ../db/zz_verif_world.go
-//verif:harness H04_diff2 property=C04 native=no quick=layout=2,fa=1,fb=0;layout=0,fa=1,fb=0 thorough=layout=1,fa=1,fb=0;layout=2,fa=1,fb=1;layout=2,fa=2,fb=0
+//verif:harness H04_diff2 property=C04 native=no quick=layout=2,fa=1,fb=0,text=0;layout=0,fa=1,fb=0,text=0;layout=2,fa=1,fb=0,text=1 thorough=layout=1,fa=1,fb=0,text=0;layout=2,fa=1,fb=1,text=0;layout=2,fa=2,fb=0,text=0;layout=0,fa=1,fb=0,text=1;layout=1,fa=2,fb=0,text=1
 
 var verifForeignNames = []string{"z", "c.z", "d.z", "g.c.z", "l.z", "p.z", "q.z", "a.c.z", "0.z"}
 
@@ -28,7 +28,13 @@ func verifForeign(n int, x []byte) []dnsdata.VerifRec {
 	for i := 0; i < n; i++ {
 		name := []byte(verifForeignNames[nd.Choice(len(verifForeignNames))])
 		wild := nd.Bool()
-		switch nd.Choice(5) {
+		kinds := 5
+		if dnsdata.VerifViaText {
+			kinds = 6 // the '.' line (SOA + NS + address in one) exists as text only
+		}
+		switch nd.Choice(kinds) {
+		case 5:
+			out = append(out, dnsdata.VerifRec{Kind: '.', Dom: name, TTL: 905, Target: []byte("ns.foreign.z"), IP: []byte{198, 51, 100, 53}, Loc: x})
 		case 0:
 			out = append(out, dnsdata.VerifRec{Kind: '+', Dom: name, Wild: wild, TTL: 900, IP: []byte{198, 51, 100, byte(i)}, Weight: 1, Loc: x})
 		case 1:
@@ -54,6 +60,13 @@ func H04_diff2() {
 	k := 2 * nd.Choice(2) // bound: a client mapped to L1 (10.0.0.1) or to no location (12.0.0.1)
 	clientLoc := [][]byte{verifL1, verifL2, {0, 0}}[k]
 	x := []byte{nd.Byte(), nd.Byte()}
+	if nd.Param("text") == 1 {
+		// every record goes through its data-file line and the real text parser; bound: the
+		// foreign location's bytes are below 64 (one leading octal digit, see C09)
+		dnsdata.VerifViaText = true
+		nd.Assume(x[0] < 64)
+		nd.Assume(x[1] < 64)
+	}
 	nd.Assume(nd.Or(x[0] != clientLoc[0], x[1] != clientLoc[1]))
 	nd.Assume(nd.Or(x[0] != 0, x[1] != 0))
 	recsA := append(verifZoneWorld(), verifForeign(nd.Param("fa"), x)...)
